@@ -184,9 +184,14 @@ class C06(Check):
                                        'sink': sink, 'stale': stale,
                                        'index': ix, 'part': half}
         elif layer == 'two':
-            Rt = 2 if tier == 'quick' else 3
             for col in A.columns(tier, 'c06'):
-                if len(col['vals']) > Rt or len(col['vals']) == 0:
+                n = len(col['vals'])
+                big = col['fam'] in ('i64', 'f64', 'strobj')
+                if tier == 'quick':
+                    lim = 2 if big else 1
+                else:
+                    lim = 3 if big else 2
+                if n > lim or n == 0:
                     continue
                 for k1 in A.KINDS:
                     yield {'L': 'two', 'col': col, 'k1': k1}
@@ -407,8 +412,8 @@ class C06(Check):
                                                            'max_nulls'):
                             # the documentation does not define the verdict:
                             # nor, then, which records carry the blame
-                            fl = [UNSPEC if x is not M.NOTFALSE else x
-                                  for x in fl]
+                            fl = [UNSPEC for x in fl]
+                        R.unspec += sum(1 for x in fl if x == UNSPEC)
                         failing.append((f, kind, e, fl))
         any_failed = any(s is False for r in dverd.values()
                          for s in r.values())
@@ -571,6 +576,7 @@ class C06(Check):
         pd = self.pd
         cols = [str(c) for c in tab.columns]
         osig = opts_sig(opts)
+        self.cur_opts = opts
         d2 = dict(detail, where=where, columns=cols)
         if NFAIL not in cols:
             R.viol('no-failure-count-column:%s' % where,
@@ -657,7 +663,7 @@ class C06(Check):
                     break
         if opts['per_constraint']:
             okcols = [c for c in cols if c.endswith('_ok')
-                      and c not in names]
+                      and c not in self.requested(opts, names)]
             flagvals = dict((c, [parse_flag(x) for x in tab[c]])
                             for c in okcols)
             for c, vals in flagvals.items():
@@ -700,10 +706,16 @@ class C06(Check):
                         break
         return got_labels
 
+    @staticmethod
+    def requested(opts, names):
+        return {'none': [], None: [], 'all': list(names),
+                'first': [names[0]]}[opts['output_fields']]
+
     def check_flags(self, R, where, tab, cols, names, rows, failing, detail,
                     d2, sub):
         """Flag of every failing constraint, record by record."""
-        okcols = [c for c in cols if c.endswith('_ok') and c not in names]
+        okcols = [c for c in cols if c.endswith('_ok')
+                  and c not in self.requested(self.cur_opts, names)]
         flagvals = dict((c, [parse_flag(x) for x in tab[c]]) for c in okcols)
         bad = False
         for (f, kind, e, fl) in failing:
@@ -739,7 +751,8 @@ class C06(Check):
         if kind in ('min', 'max'):
             s += ':%s:%s' % (e.get('prec') or 'default', bound_class(e['val']))
         if want is M.NOTFALSE:
-            s += ':null-value-flagged-false'
+            return 'flag:%s:null-value-flagged-false%s' % (
+                kind, (':' + where if where != 'frame' else ''))
         else:
             s += ':want%s-got%s' % (want, got)
         return s + (':' + where if where != 'frame' else '')
@@ -772,25 +785,28 @@ class C06(Check):
                                              'same_field': True})
         # two fields: this column + an int column / a missing field / a
         # colliding field name
+        combos = [(o, sink) for o in optpoints for sink in sinks]
         for e1 in v1s:
             for (n2, second) in (('b c', [spec_entry('min', 1)]),
                                  ('b c', [spec_entry('min', -5)]),
                                  ('b c', [spec_entry('type', 'string')]),
                                  ('zz', [spec_entry('max_nulls', 0)]),
                                  ('a_min_ok', [spec_entry('max', 2)])):
-                for o in optpoints:
-                    for sink in sinks:
-                        if sink and o is optpoints[0] and n2 != 'b c':
-                            continue
-                        names = ['a', n2 if n2 != 'zz' else 'b c']
-                        fields = OrderedDict([('a', [spec_entry(k1, e1)]),
-                                              (n2, second)])
-                        self.clean_sandbox()
-                        self.judge(R, [col, other], names, None, fields, 0.25,
-                                   None, o, sink, False,
-                                   {'v1': e1, 'second': n2,
-                                    'second_c': second[0]['kind'],
-                                    'opts': opts_sig(o), 'sink': sink})
+                if self.tier == 'thorough':
+                    todo = combos
+                else:
+                    n += 1
+                    todo = [combos[n % len(combos)]]
+                for (o, sink) in todo:
+                    names = ['a', n2 if n2 != 'zz' else 'b c']
+                    fields = OrderedDict([('a', [spec_entry(k1, e1)]),
+                                          (n2, second)])
+                    self.clean_sandbox()
+                    self.judge(R, [col, other], names, None, fields, 0.25,
+                               None, o, sink, False,
+                               {'v1': e1, 'second': n2,
+                                'second_c': second[0]['kind'],
+                                'opts': opts_sig(o), 'sink': sink})
 
     # ------------------------------------------------------------ layer hist
     def run_hist(self, R, case):
